@@ -322,6 +322,8 @@ class ExprMixin:
                 raise Unsupported("non-string `in` string")
             return z3.Contains(c.t, item.t)
         if isinstance(c, (VMap, VSet)):
+            if isinstance(c.key, vals.VOptKey):
+                return c.has(item)   # None is a possible key of this container
             if isinstance(item, VOpt):
                 return z3.And(z3.Not(item.isnone), c.has(item.val))
             if isinstance(item, VNone):
